@@ -99,10 +99,18 @@ func (o *UntypedRequestBinder) Bind(request *http.Request, routeParams RoutePara
 		// default or zero value, which need not satisfy the constraints declared for actual values
 		if binder.validator != nil && (param.Required || binder.isSent(request, routeParams)) {
 			value := target.Interface()
-			if target.Kind() == reflect.String {
+			switch {
+			case target.Kind() == reflect.String:
 				// formats bound to a named string type (uuid, email, uri, ...) are validated as the plain
 				// string they hold: the validators do not recognize the named types as strings.
 				value = target.String()
+			case target.Kind() == reflect.Slice && target.Type().Elem().Kind() == reflect.String && target.Type().Elem() != reflect.TypeOf(""):
+				// the same for the items of an array of such a format
+				plain := make([]string, target.Len())
+				for i := range plain {
+					plain[i] = target.Index(i).String()
+				}
+				value = plain
 			}
 			rr := binder.validator.Validate(value)
 			if rr != nil && rr.HasErrors() {
